@@ -697,7 +697,11 @@ class RZILTransformer(Transformer):
         op_type = AssignmentType(items[1])
         if isinstance(items[2], Assignment):
             # a = b = 0 case
-            src = items[2].src
+            # The value of the inner assignment is the value of b after it was assigned.
+            # A local variable is read again, because the source might change
+            # its value with the assignment (a = b = b + 1).
+            inner: Assignment = items[2]
+            src = inner.dest if isinstance(inner.dest, LocalVar) else inner.src
         else:
             src: Pure = items[2]
         name = f"op_{op_type.name}"
@@ -713,7 +717,7 @@ class RZILTransformer(Transformer):
         assignment = self.chk_hybrid_dep(self.add_op(assignment))
         if isinstance(items[2], Assignment):
             return self.chk_hybrid_dep(
-                self.add_op(Sequence("seq", [assignment, items[2]]))
+                self.add_op(Sequence("seq", [items[2], assignment]))
             )
         return assignment
 
